@@ -137,6 +137,14 @@ func famFault(r *Rand, base, pool, k1 int, kind1 string, k2 int, kind2 string) *
 		f[fmt.Sprint(k2)] = kind2
 	}
 	b.cmd(seqCmd{Op: "run", Inst: 0, Faults: f})
+	if r.Chance(50) {
+		// the process keeps running: if the sequencer survived the fault it goes on sequencing on top of
+		// whatever the faulty round left behind (commands on a stopped instance are no-ops)
+		b.submitN(0, 1+r.Intn(3), true)
+		b.roundOK(0)
+		b.submitN(0, 1, false)
+		b.roundOK(0)
+	}
 	// whatever happened: if the sequencer died, restart; then resubmit and sequence again
 	b.cmd(seqCmd{Op: "crash", Inst: 0})
 	b.cmd(seqCmd{Op: "clock", V: 7})
